@@ -65,6 +65,9 @@ func c06ProgramCtx(e *ast.Node, ctx string) *ast.Node {
 		use = []*ast.Node{set("r", ast.Num("0")), ast.ForIn("q", "", ast.Arr(e), ast.Block(set("r", ast.Id("q"))))}
 	case "object-value":
 		use = []*ast.Node{set("r", ast.Mem(ast.Paren(ast.Obj(ast.KV("a", ast.Num("1")), ast.KV("v", e), ast.KV("z", ast.Num("2")))), "v"))}
+	case "while-whole-condition":
+		// the expression is the whole condition of a while (an assignment may stand there)
+		use = []*ast.Node{set("r", ast.Str("F")), set("wc", ast.Num("0")), ast.While(e, ast.Block(set("r", ast.Str("T")), ast.ExprS(ast.Post("++", ast.Id("wc"))), ast.If(ast.Bin(">", ast.Id("wc"), ast.Num("0")), ast.Block(ast.Break()))))}
 	case "while-condition":
 		use = []*ast.Node{set("r", ast.Str("F")), set("wc", ast.Num("0")), ast.While(ast.Bin("&&", ast.Bin("<", ast.Post("++", ast.Id("wc")), ast.Num("1")), ast.Paren(e)), ast.Block(set("r", ast.Str("T"))))}
 	default:
@@ -456,6 +459,9 @@ func TestC06(t *testing.T) {
 	for _, aop := range []string{"=", "+=", "-=", "*=", "/="} {
 		for _, bop := range []string{"=", "+=", "-=", "*=", "/="} {
 			runCase(&C06Case{Expr: ast.Asg(aop, x, ast.Asg(bop, y, ast.Num("6"))), Tag: "x " + aop + " y " + bop + " 6"}, true, "assignment-chain")
+			for _, ctx := range []string{"condition", "while-whole-condition", "index", "argument", "return", "forin", "pattern"} {
+				runCase(&C06Case{Expr: ast.Asg(aop, x.Clone(), ast.Asg(bop, y.Clone(), ast.Bin("+", ast.Id("n1"), ast.Num("1")))), Ctx: ctx, Tag: "x " + aop + " y " + bop + " n1 + 1 as " + ctx}, true, "assignment-chain", "context:"+ctx)
+			}
 			runCase(&C06Case{Expr: ast.Asg(aop, x, ast.Asg(bop, y, ast.Asg("=", z, ast.Num("4")))), Tag: "triple chain"}, true, "assignment-chain")
 		}
 		for _, op := range gen.AllBin {
